@@ -1781,6 +1781,7 @@ class Run:
         self.writes = mine
 
         def leave() -> None:
+            self.exit_loop_idx = self.loop_idx  # index of the iteration a `break` / `return` / exception left the loop from
             self.writes = outer_writes
             if outer_writes is not None:
                 outer_writes.extend(mine)
